@@ -2,16 +2,17 @@
 # build.sh <outdir>: instrument $VERIF_REPO (default /repo) into a fresh overlay and build the worker there.
 set -e
 export GOFLAGS=-mod=mod GOPROXY=off GOTOOLCHAIN=local
-cd /verif
+cd "$(dirname "$(readlink -f "$0")")"
+ROOT="$PWD"
 OUT=$1
 REPO=${VERIF_REPO:-/repo}
-mkdir -p "$OUT/ov" /verif/.cache
-[ -x bin/vrewrite ] && [ ! tools/rewrite/main.go -nt bin/vrewrite ] || (cd tools/rewrite && go1.26 build -o /verif/bin/vrewrite .)
+mkdir -p "$OUT/ov" $ROOT/.cache
+[ -x bin/vrewrite ] && [ ! tools/rewrite/main.go -nt bin/vrewrite ] || (cd tools/rewrite && go1.26 build -o $ROOT/bin/vrewrite .)
 # A copy of the grpc module outside GOMODCACHE (files beneath GOMODCACHE cannot be
 # overlaid): only its root package gets its sync import replaced (engine/vsyncd).
 GRPCVER=$(cd "$REPO" && go1.26 list -m -f '{{.Version}}' google.golang.org/grpc)
 GRPCSRC=$(cd "$REPO" && go1.26 list -m -f '{{.Dir}}' google.golang.org/grpc)
-GRPCDIR=/verif/.cache/grpc@$GRPCVER
+GRPCDIR=$ROOT/.cache/grpc@$GRPCVER
 if [ ! -f "$GRPCDIR/.complete" ]; then
   rm -rf "$GRPCDIR"; mkdir -p "$GRPCDIR"
   rsync -a --chmod=u+w --exclude='*_test.go' --exclude='/interop' --exclude='/test' --exclude='/benchmark' --exclude='/examples' \
@@ -21,7 +22,7 @@ if [ ! -f "$GRPCDIR/.complete" ]; then
 fi
 cp go.mod "$OUT/go.mod"; cp go.sum "$OUT/go.sum"
 echo "replace google.golang.org/grpc => $GRPCDIR" >> "$OUT/go.mod"
-bin/vrewrite -repo "$REPO" -out "$OUT/ov" -export .=/verif/overlay/plugin_export.go.src -durable "$GRPCDIR" -replace "$GRPCDIR/internal/grpcrand/grpcrand.go=/verif/overlay/grpcrand.go.src"
+bin/vrewrite -repo "$REPO" -out "$OUT/ov" -export .=$ROOT/overlay/plugin_export.go.src -durable "$GRPCDIR" -replace "$GRPCDIR/internal/grpcrand/grpcrand.go=$ROOT/overlay/grpcrand.go.src"
 go1.26 test -c -vet=off -modfile="$OUT/go.mod" -overlay "$OUT/ov/overlay.json" -o "$OUT/worker.test" ./scen/
 # E3: real-process cells run uninstrumented against the working tree
 go1.26 build -o "$OUT/vplugin" ./cmd/vplugin
